@@ -32,6 +32,8 @@ HOPS = ["seed0", "seed12345", "draw", "fit_km_random", "fit_gmm", "fit_isv", "fi
 TARGETS = ["km_random", "km_random_dask", "gmm_km", "gmm_km_dask", "isv_list", "isv_bag", "isv_array_dask", "jfa_list", "wccn", "km_parallel",
            "isv_list_seed0", "jfa_list_seed0", "km_random_refit", "gmm_shared_km_trainer", "gmm_default_init"]
 
+_SHARED_KW = dict(n_gaussians=2, max_fitting_steps=2, convergence_threshold=None)  # one settings dict handed to several estimators
+
 X8 = [[0, 0], [1, 0.5], [0.5, 1.5], [10, 10], [11, 11.5], [10.5, 9.5], [2, 1], [9, 12]]
 Y8 = [0, 1, 0, 1, 0, 1, 1, 0]
 
@@ -52,6 +54,13 @@ def cases(tier, seed):
     for t, n in (("km_explicit", 5), ("gmm_explicit", 5), ("whitening", 5)):
         for perm in itertools.permutations(range(n)):
             out.append(dict(kind="perm", target=t, perm=list(perm), rename=None, seed=seed))
+    # class ids that are not 0..K-1 ({1,4,9,12} collide in a small hash table, so set iteration order follows insertion)
+    perms8 = list(itertools.permutations(range(8)))[:: (997 if tier == "quick" else 211)]
+    for perm in perms8:
+        for ren in list(itertools.permutations(range(4)))[:: (1 if tier == "thorough" else 3)]:
+            out.append(dict(kind="perm", target="wccn_ids", perm=list(perm), rename=list(ren), seed=seed))
+    for h in ([], ["fit_jfa_shared_kwargs"], ["fit_jfa_shared_kwargs", "draw"]):
+        out.append(dict(kind="history", target="isv_shared_kwargs", hist=h, seed=seed))
     for t, n, K in (("isv", 4, 2), ("jfa", 4, 2), ("isv3", 5, 3), ("wccn", 5, 2), ("wccn3", 6, 3), ("isv_array", 5, 2), ("jfa_array", 5, 2)):
         perms = list(itertools.permutations(range(n)))
         if n == 6:
@@ -112,6 +121,10 @@ def _fit_target(t, X, ubm, stats):
         kw = dict(random_state=5, max_fitting_steps=2, update_means=True, update_variances=True, update_weights=True, convergence_threshold=None)
         GMMMachine(2, k_means_trainer=km, **kw).fit(X[::-1][:6] * 0.5 + 1.0)
         return _vec(GMMMachine(2, k_means_trainer=km, **kw).fit(X.copy()), ["means", "variances", "weights"])
+    if t == "isv_shared_kwargs":
+        m = ISVMachine(r_U=1, em_iterations=1, ubm=None, ubm_kwargs=_SHARED_KW, random_state=11)
+        m.fit_using_array(X.copy(), y)
+        return dict(U=np.array(m.U, float), ubm_means=np.array(m.ubm.means, float))
     if t == "isv_list":
         return _vec(ISVMachine(r_U=2, em_iterations=2, ubm=ubm, random_state=4).fit(copy.deepcopy(stats), sl), ["U", "D"])
     if t == "isv_bag":
@@ -146,6 +159,8 @@ def _hop(op, X, ubm, stats):
         ISVMachine(r_U=1, em_iterations=1, ubm=ubm, random_state=77).fit(copy.deepcopy(stats), sl)
     elif op == "fit_jfa":
         JFAMachine(r_U=1, r_V=1, em_iterations=1, ubm=ubm, random_state=None).fit(copy.deepcopy(stats), sl)
+    elif op == "fit_jfa_shared_kwargs":
+        JFAMachine(r_U=1, r_V=1, em_iterations=1, ubm=None, ubm_kwargs=_SHARED_KW, random_state=5).fit_using_array(X.copy(), np.array(Y8))
     elif op == "fit_ivector":
         IVectorMachine(ubm, dim_t=2, max_iterations=1).fit(copy.deepcopy(stats))
 
@@ -174,6 +189,12 @@ def _perm_case(case, c, s, o):
             return _vec(g.fit(Xs), ["means", "variances", "weights"])
         if t == "whitening":
             return _vec(Whitening().fit(X[:n][order]), ["weights", "input_subtract"])
+        if t == "wccn_ids":
+            ids = [1, 4, 9, 12]
+            base = [0, 1, 2, 3, 0, 1, 2, 3]
+            Xs = X[order]
+            ys = np.array([ids[rename[base[i]]] for i in order])
+            return _vec(WCCN().fit(Xs, ys), ["weights"])
         if t in ("wccn", "wccn3"):
             base = [0, 1, 0, 1, 0, 1][:n] if t == "wccn" else [0, 1, 2, 0, 1, 2]
             Xs = (X[:n] if t == "wccn" else np.vstack([X[:5], X[7:8]]))[order]
@@ -195,6 +216,8 @@ def _perm_case(case, c, s, o):
         return _vec(ISVMachine(r_U=2, em_iterations=2, ubm=ubm, random_state=4).fit(st, ys), ["U", "D"])
 
     K = 0 if ren is None else len(ren)
+    if t == "wccn_ids":
+        X = X + np.array([[0.0, 0.0], [0.5, 0.25], [0.0, 1.0], [0.25, 0.0], [1.0, 0.0], [0.0, 0.5], [0.5, 0.5], [1.0, 2.0]]) * s  # 4 classes x 2 samples in general position
     ref = run(list(range(n)), list(range(K)))
     got = run(perm, ren if ren is not None else [])
     c.transitions += 2
@@ -216,12 +239,16 @@ def run_case(case):
             sig = "perm|%s|%r|%r" % (case["target"], case["perm"], case["rename"])
         else:
             X, ubm, stats = _world(s, o)
+            _SHARED_KW.clear()
+            _SHARED_KW.update(n_gaussians=2, max_fitting_steps=2, convergence_threshold=None)
             np.random.seed(424242)
             fresh = {"km_random_refit": "km_random", "gmm_shared_km_trainer": "gmm_km"}.get(case["target"], case["target"])
             ref = _fit_target(fresh, X, ubm, stats)
             again = _fit_target(case["target"], X, ubm, stats)
             for k in ref:
                 c.check(np.array_equal(ref[k], again[k]), "repeat", f"{case['target']}: fitting again (same data, configuration and seed) gives different {k} than a fresh estimator", dict(target=case["target"]))
+            _SHARED_KW.clear()
+            _SHARED_KW.update(n_gaussians=2, max_fitting_steps=2, convergence_threshold=None)
             np.random.seed(424242)
             for op in case["hist"]:
                 _hop(op, X, ubm, stats)
